@@ -129,11 +129,27 @@ def str_const(s: str, ty: TStr) -> V:
     if ty.view == "opaque":
         if s == "":
             return V(ty, T.text_empty())
-        return V(ty, z3.Const("txk_" + hashlib.md5(s.encode()).hexdigest()[:10], ty.sort()))
+        c = z3.Const("txk_" + hashlib.md5(s.encode()).hexdigest()[:10], ty.sort())
+        TEXT_LITERALS[s] = c
+        return V(ty, c)
     arr = z3.K(z3.IntSort(), z3.IntVal(0))
     for i, ch in enumerate(s):
         arr = z3.Store(arr, i, ord(ch))
     return mk_seq(ty, arr, z3.IntVal(len(s)))
+
+
+TEXT_LITERALS: dict = {}
+
+
+def text_literal_axioms():
+    """Distinct opaque-text literals denote distinct texts of the right length."""
+    out = []
+    lits = list(TEXT_LITERALS.items())
+    if lits:
+        out.append(z3.Distinct(T.text_empty(), *[c for _, c in lits]) if len(lits) >= 1 else z3.BoolVal(True))
+        for sv, c in lits:
+            out.append(T.text_len()(c) == len(sv))
+    return out
 
 
 def is_str(t):
